@@ -30,6 +30,7 @@ Definition spec_step (c : scfg) (m : smap) (o : op) : smap * result * list cbcal
              | Some _ => (m, EDuplicate, [])
              | None =>
                  if s_checks c && e_veto e then (m, EVeto, [])
+                 else if s_checks c && e_unenc e then (m, EEncode, [])
                  else (<[j := v]> m, ROk, [(j, None, Some v)])
              end
   | OUpdate i v e =>
@@ -38,6 +39,7 @@ Definition spec_step (c : scfg) (m : smap) (o : op) : smap * result * list cbcal
            | None => (m, ENotFound, [])
            | Some b =>
                if s_checks c && e_veto e then (m, EVeto, [])
+               else if s_checks c && e_unenc e then (m, EEncode, [])
                else (<[i := v]> m, ROk, [(i, Some b, Some v)])
            end
   | ODelete i e =>
@@ -87,6 +89,8 @@ Definition spec_bc (c : scfg) (nl : nat) (m : smap) (o : op) : list bccall :=
 (* the value an operation would write *)
 Definition after_of (o : op) : option val :=
   match o with OCreate _ v _ | OUpdate _ v _ => Some v | _ => None end.
+Definition unenc_of (o : op) : bool :=
+  match o with OCreate _ _ e | OUpdate _ _ e => e_unenc e | _ => false end.
 Definition vetoat_of (o : op) : nat :=
   match o with OCreate _ _ e | OUpdate _ _ e | ODelete _ e => e_vetoat e | _ => 0%nat end.
 
@@ -109,7 +113,7 @@ Definition abs (pfx : bytes) (st : kvstate) : smap :=
 
 (* classification of results *)
 Definition is_failure (r : result) : bool :=
-  match r with ENotFound | EDuplicate | EMissingID | EType | EVeto | RPanic | EOther => true | _ => false end.
+  match r with ENotFound | EDuplicate | EMissingID | EType | EVeto | RPanic | EEncode | EOther => true | _ => false end.
 Definition is_mutation (o : op) : bool :=
   match o with OCreate _ _ _ | OUpdate _ _ _ | ODelete _ _ => true | _ => false end.
 
